@@ -27,6 +27,8 @@ class Ctx:
 
     def ob(self, rule, key, ok, where, msg, fact=None):
         """one obligation (rule instance).  key: stable identity (no line numbers)."""
+        if rule not in self.rules:
+            self.rules[rule] = {'text': '', 'floor': 0, 'inst': [], 'fixture': None}
         self.rules[rule]['inst'].append({'key': key, 'ok': bool(ok), 'where': where, 'msg': msg, 'fact': fact})
         if not ok:
             self.findings.append({'rule': rule, 'key': '%s:%s' % (rule, key), 'where': where, 'msg': msg, 'fact': fact})
@@ -50,14 +52,13 @@ def load_known(pid):
             line = line.strip()
             if not line.startswith('finding:'):
                 continue
-            parts = line.split(None, 3)
-            # finding: property=C05 key=<key> <text>
-            if len(parts) < 3:
+            # finding: property=C05 key=<key, may contain spaces> :: <text>
+            import re as _re
+            m = _re.match(r'finding:\s+property=(\S+)\s+key=(.*?)\s+::\s+(.*)$', line)
+            if not m:
                 continue
-            p = parts[1].split('=', 1)[1]
-            k = parts[2].split('=', 1)[1]
-            if p == pid:
-                out[k] = parts[3] if len(parts) > 3 else ''
+            if m.group(1) == pid:
+                out[m.group(2)] = m.group(3)
     return out
 
 
@@ -74,6 +75,7 @@ def run_check(pid, tier='quick', prog=None, out=sys.stdout, write=True):
         ctx = Ctx(pid, tier, prog)
         mod.run(ctx)
         # floors and fixtures
+        ctx.order = [r for r in ctx.order if r in ctx.rules]
         for r in ctx.order:
             R = ctx.rules[r]
             if len(R['inst']) < R['floor']:
